@@ -19,3 +19,20 @@ def ref_out_events(port, encapsulee):
 
 def ref_in_events(port, encapsulee):
     return text_or_none(ref_lines(port, encapsulee, EventDirection.IN, 'in'))
+
+
+# ---------------------------------------------------------------------------------------------- C10, any number of ports
+def statements(lines):
+    """the C++ statements of a body: its lines without comment lines and blank lines"""
+    return [l for l in lines if not l.startswith('//') and l != '']
+
+
+def final_construct_statements(provides_ports, requires_ports, encapsulee):
+    """C10: every multi-client provides port is finally constructed; every other exposed port - provides first, then
+    requires, each in model order - is checked for unbound events through the object the accessor hands out; the wrapped
+    component gets its parent and is checked last"""
+    mv = encapsulee.member_var.name
+    return [p.accessor_target + '.FinalConstruct();' for p in provides_ports.ports if p.dzn_port_itf.multiclient is not None] + \
+           [p.accessor_target + '.check_bindings();' for p in provides_ports.ports if p.dzn_port_itf.multiclient is None] + \
+           [p.accessor_target + '.check_bindings();' for p in requires_ports.ports] + \
+           [mv + '.dzn_meta.parent = parentComponentMeta;', mv + '.check_bindings();']
